@@ -135,6 +135,9 @@ func Load(dir, tags string) *Program {
 	return p
 }
 
+// InRepo reports whether fn belongs to one of the analysed repository packages.
+func (p *Program) InRepo(fn *ssa.Function) bool { return p.inRepo(fn) }
+
 func (p *Program) inRepo(fn *ssa.Function) bool {
 	if fn == nil {
 		return false
